@@ -15,45 +15,38 @@
 From Coq Require Import List NArith ZArith Bool Arith Lia.
 Import ListNotations.
 Require Import XV.Str XV.Json XV.TextFormat XV.Forest XV.Matcher XV.Differ XV.Path XV.WF XV.XmlFmt XV.Projections
-               XV.XmlFmtProofs1 XV.XmlFmtProofs2.
+               XV.XmlFmtProofs1 XV.XmlFmtProofs2 XV.XmlFmtProofsR2.
 Require XV.Placeholder XV.PlaceholderProofs XV.PlaceholderRound XV.PlaceholderUndo XV.PlaceholderFinal.
 Require XV.DMP XV.DMPBase.
 Local Open Scope N_scope.
 
 Notation ornone := Placeholder.ornone.
-Notation F0 := Placeholder.ph_init.
-
-Lemma INV0 : PlaceholderProofs.ph_inv F0.
-Proof. exact (proj1 (PlaceholderFinal.ph_wf_init [] [])). Qed.
-Lemma ROOM0 : Placeholder.ctr F0 <= Placeholder.PUA_END.
-Proof. vm_compute. discriminate. Qed.
-Lemma NEMP0 : Placeholder.p2t F0 <> [].
-Proof. rewrite ph_init_p2t. discriminate. Qed.
-
 (* ------------------------------------------------------------------ *)
 (** * Runs and their expansion *)
 
-Definition plainseg (sg : DMP.op * str) : Prop := plain (snd sg).
-
 Definition welem (name : str) (t l : str) : xtree :=
   XNode (Placeholder.DIFF_NS_BRACED ++ name) [] (ornone t) l [].
+(* the diff:replace wrapper: the new text inside, the old text in the old-text attribute *)
+Definition relw (new old l : str) : xtree :=
+  XNode (Placeholder.DIFF_NS_BRACED ++ Placeholder.s_replace) [(s_old_text, old)] (ornone new) l [].
 
-Fixpoint exp (d : list (DMP.op * str)) : str * list xtree :=
+Fixpoint exp (d : list piece) : str * list xtree :=
   match d with
   | [] => ([], [])
-  | (o, t) :: r =>
+  | p :: r =>
       let '(l, ws) := exp r in
-      match o with
-      | DMP.EQUAL => (t ++ l, ws)
-      | DMP.INSERT => ([], welem Placeholder.s_insert t l :: ws)
-      | DMP.DELETE => ([], welem Placeholder.s_delete t l :: ws)
+      match p with
+      | PS (DMP.EQUAL, t) => (t ++ l, ws)
+      | PS (DMP.INSERT, t) => ([], welem Placeholder.s_insert t l :: ws)
+      | PS (DMP.DELETE, t) => ([], welem Placeholder.s_delete t l :: ws)
+      | PR _ new old => ([], relw new old l :: ws)
       end
   end.
 
 Definition set_tail (e : xtree) (l : str) : xtree := XNode (xtag e) (xattrs e) (xtext e) l (xkids e).
 
 (* the result of the undo_string loop on  p ++ enc d  started with (rtext, acc) *)
-Definition res_of (d : list (DMP.op * str)) (p rtext : str) (acc : list xtree) : str * list xtree :=
+Definition res_of (d : list piece) (p rtext : str) (acc : list xtree) : str * list xtree :=
   let '(l, ws) := exp d in
   match acc with
   | [] => (p ++ l, ws)
@@ -75,11 +68,25 @@ Proof.
   - destruct e as [tag attrs text tail kids]. cbn in H. subst. reflexivity.
 Qed.
 
+Section WithS.
+(* the maker the strings are read with: any maker without text-tag placeholders ([tinv]); the working tree's strings
+   are runs over ITS placeholders.  (Makers only grow: a run over a maker is a run over every later one.) *)
+Variable F0 : pstate.
+Hypothesis HS : tinv F0.
+
+Lemma INV0 : PlaceholderProofs.ph_inv F0.
+Proof. exact (ti_inv F0 HS). Qed.
+Lemma ROOM0 : Placeholder.ctr F0 <= Placeholder.PUA_END.
+Proof. exact (ti_room F0 HS). Qed.
+Lemma NEMP0 : Placeholder.p2t F0 <> [].
+Proof. exact (tinv_nemp F0 HS). Qed.
+
+Definition plainseg (p : piece) : Prop := piece_ok F0 p.
+
 Section Run.
 Variable uel : xtree -> Placeholder.res xtree.
-Hypothesis uel_wrapper : forall name t, plain t ->
-  uel (XNode (Placeholder.DIFF_NS_BRACED ++ name) [] (ornone t) [] []) =
-  Placeholder.Ok (XNode (Placeholder.DIFF_NS_BRACED ++ name) [] (ornone t) [] []).
+Hypothesis uel_wrapper : forall tag attrs t, plain t ->
+  uel (XNode tag attrs (ornone t) [] []) = Placeholder.Ok (XNode tag attrs (ornone t) [] []).
 
 Lemma not_in_plain c t : okc c = false -> plain t -> ~ In c t.
 Proof.
@@ -88,19 +95,21 @@ Qed.
 
 Lemma get_INS_O : Placeholder.p2t_get (Placeholder.p2t F0) INS_O
                   = Some (Placeholder.diff_elem Placeholder.s_insert, Placeholder.TOpen, Some INS_C).
-Proof. rewrite ph_init_p2t. reflexivity. Qed.
+Proof. rewrite (ti_base F0 HS INS_O ltac:(cbn; tauto)), ph_init_p2t. reflexivity. Qed.
 Lemma get_DEL_O : Placeholder.p2t_get (Placeholder.p2t F0) DEL_O
                   = Some (Placeholder.diff_elem Placeholder.s_delete, Placeholder.TOpen, Some DEL_C).
-Proof. rewrite ph_init_p2t. reflexivity. Qed.
-Lemma is_ph_const c : In c [INS_O; INS_C; DEL_O; DEL_C] -> Placeholder.is_ph F0 c = true.
+Proof. rewrite (ti_base F0 HS DEL_O ltac:(cbn; tauto)), ph_init_p2t. reflexivity. Qed.
+Lemma is_ph_const c : In c [INS_O; INS_C; DEL_O; DEL_C; REP_C] -> Placeholder.is_ph F0 c = true.
 Proof.
-  unfold Placeholder.is_ph. rewrite ph_init_p2t. cbn [In]. intros [<-|[<-|[<-|[<-|[]]]]]; reflexivity.
+  intros H. unfold Placeholder.is_ph. rewrite (ti_base F0 HS c), ph_init_p2t.
+  - cbn [In] in H. destruct H as [<-|[<-|[<-|[<-|[<-|[]]]]]]; reflexivity.
+  - cbn [In] in H. cbn [base6 In]. unfold INS_O, INS_C, DEL_O, DEL_C, REP_C in H. tauto.
 Qed.
 
 (* one wrapper group at the head of the run *)
-Lemma us_group (po pc : N) (name : str) :
-  Placeholder.p2t_get (Placeholder.p2t F0) po = Some (Placeholder.diff_elem name, Placeholder.TOpen, Some pc) ->
-  Placeholder.is_ph F0 po = true -> Placeholder.is_ph F0 pc = true -> okc pc = false ->
+Lemma us_group (po pc : N) (tag : str) (attrs : list (str * str)) :
+  Placeholder.p2t_get (Placeholder.p2t F0) po = Some (XNode tag attrs None [] [], Placeholder.TOpen, Some pc) ->
+  Placeholder.is_ph F0 pc = true -> okc pc = false ->
   forall p t z rtext acc n,
   plain p -> plain t -> fresh rtext acc ->
   (length (Placeholder.split_string F0 (p ++ po :: t ++ pc :: z)) <= n)%nat ->
@@ -108,9 +117,10 @@ Lemma us_group (po pc : N) (name : str) :
     Placeholder.us_loop F0 uel n (Placeholder.split_string F0 (p ++ po :: t ++ pc :: z)) rtext acc
     = Placeholder.us_loop F0 uel n' (Placeholder.split_string F0 z)
         (fst (PlaceholderUndo.push_plain p rtext acc))
-        (welem name t [] :: snd (PlaceholderUndo.push_plain p rtext acc)).
+        (XNode tag attrs (ornone t) [] [] :: snd (PlaceholderUndo.push_plain p rtext acc)).
 Proof.
-  intros Hget Hpo Hpc Hokc p t z rtext acc n Hp Ht Hf Hlen.
+  intros Hget Hpc Hokc p t z rtext acc n Hp Ht Hf Hlen.
+  assert (Hpo : Placeholder.is_ph F0 po = true) by (unfold Placeholder.is_ph; now rewrite Hget).
   rewrite (PlaceholderUndo.split_plain_ph F0 INV0 ROOM0 p po _ Hp Hpo) in *.
   pose proof (PlaceholderUndo.split_length_app F0 ROOM0 (t ++ [pc]) z) as SL.
   rewrite <- app_assoc in SL. cbn [app] in SL. cbn [length] in Hlen.
@@ -118,8 +128,8 @@ Proof.
   rewrite (PlaceholderUndo.us_loop_plain F0 INV0 ROOM0) by exact Hp.
   cbn [Placeholder.us_loop]. rewrite Hget.
   rewrite (PlaceholderUndo.take_until_split F0 pc t z [] Hpc (not_in_plain pc t Hokc Ht)). cbn [app].
-  unfold Placeholder.set_text_tail, Placeholder.diff_elem. cbn [xtag xattrs xkids].
-  rewrite (uel_wrapper name t Ht). cbn [Placeholder.bind].
+  unfold Placeholder.set_text_tail. cbn [xtag xattrs xkids].
+  rewrite (uel_wrapper tag attrs t Ht). cbn [Placeholder.bind].
   exists n2. split; [lia|]. reflexivity.
 Qed.
 
@@ -129,68 +139,74 @@ Proof. intros H. exact H. Qed.
 
 Theorem us_run d : Forall plainseg d -> forall p rtext acc n,
   plain p -> fresh rtext acc ->
-  (length (Placeholder.split_string F0 (p ++ enc d)) <= n)%nat ->
-  Placeholder.us_loop F0 uel n (Placeholder.split_string F0 (p ++ enc d)) rtext acc
+  (length (Placeholder.split_string F0 (p ++ encp d)) <= n)%nat ->
+  Placeholder.us_loop F0 uel n (Placeholder.split_string F0 (p ++ encp d)) rtext acc
   = Placeholder.Ok (fst (res_of d p rtext acc), snd (res_of d p rtext acc)).
 Proof.
-  induction 1 as [|[o t] d Hsg _ IH]; intros p rtext acc n Hp Hf Hlen.
-  - unfold enc in *. cbn [map concat] in *. rewrite app_nil_r in *.
+  induction 1 as [|pc d Hsg _ IH]; intros p rtext acc n Hp Hf Hlen.
+  - unfold encp in *. cbn [map concat] in *. rewrite app_nil_r in *.
     rewrite (PlaceholderUndo.split_plain F0 INV0 ROOM0 p Hp) in *. cbn [length] in Hlen.
     destruct n as [|n1]; [lia|].
     rewrite (PlaceholderUndo.us_loop_plain F0 INV0 ROOM0) by exact Hp. rewrite PlaceholderUndo.us_loop_nil.
     rewrite (push_plain_fresh p rtext acc Hf). unfold res_of. cbn [exp]. rewrite app_nil_r.
     destruct acc as [|e a]; cbn [fst snd rev]; [reflexivity|]. reflexivity.
-  - unfold plainseg in Hsg. cbn [snd] in Hsg.
-    assert (Eenc : enc ((o, t) :: d) = enc_seg (o, t) ++ enc d) by reflexivity.
-    rewrite Eenc in *. unfold enc_seg in *. cbn [fst snd] in *.
-    destruct o.
-    + (* DELETE *)
-      replace (p ++ (DEL_O :: t ++ [DEL_C]) ++ enc d) with (p ++ DEL_O :: t ++ DEL_C :: enc d) in *
+  - assert (Eenc : encp (pc :: d) = enc_piece pc ++ encp d) by reflexivity.
+    rewrite Eenc in *.
+    assert (GRP : forall po pcl tag attrs t,
+              enc_piece pc = po :: t ++ [pcl] -> plain t ->
+              Placeholder.p2t_get (Placeholder.p2t F0) po = Some (XNode tag attrs None [] [], Placeholder.TOpen, Some pcl) ->
+              Placeholder.is_ph F0 pcl = true -> okc pcl = false ->
+              exp (pc :: d) = ([], XNode tag attrs (ornone t) (fst (exp d)) [] :: snd (exp d)) ->
+              Placeholder.us_loop F0 uel n (Placeholder.split_string F0 (p ++ enc_piece pc ++ encp d)) rtext acc
+              = Placeholder.Ok (fst (res_of (pc :: d) p rtext acc), snd (res_of (pc :: d) p rtext acc))).
+    { intros po pcl tag attrs t Ee Ht Hget Hcl Hokc Hexp.
+      rewrite Ee in *.
+      replace (p ++ (po :: t ++ [pcl]) ++ encp d) with (p ++ po :: t ++ pcl :: encp d) in *
         by (cbn [app]; rewrite <- app_assoc; reflexivity).
-      destruct (us_group DEL_O DEL_C Placeholder.s_delete get_DEL_O
-                  (is_ph_const _ ltac:(cbn; tauto)) (is_ph_const _ ltac:(cbn; tauto)) eq_refl
-                  p t (enc d) rtext acc n Hp Hsg Hf Hlen) as (n' & Hn' & ->).
+      destruct (us_group po pcl tag attrs Hget Hcl Hokc p t (encp d) rtext acc n Hp Ht Hf Hlen) as (n' & Hn' & ->).
       match goal with |- Placeholder.us_loop _ _ _ _ ?rt (?e :: ?ac) = _ =>
         pose proof (IH [] rt (e :: ac) n' plain_nil eq_refl Hn') as E end.
       cbn [app] in E. rewrite E. clear E.
-      f_equal. rewrite (push_plain_fresh p rtext acc Hf). unfold res_of. cbn [exp].
-      destruct (exp d) as [l ws]. cbn [app].
-      destruct acc as [|e a]; cbn [fst snd rev app]; rewrite ?app_nil_r; [reflexivity|].
-      rewrite <- app_assoc. reflexivity.
-    + (* INSERT *)
-      replace (p ++ (INS_O :: t ++ [INS_C]) ++ enc d) with (p ++ INS_O :: t ++ INS_C :: enc d) in *
-        by (cbn [app]; rewrite <- app_assoc; reflexivity).
-      destruct (us_group INS_O INS_C Placeholder.s_insert get_INS_O
-                  (is_ph_const _ ltac:(cbn; tauto)) (is_ph_const _ ltac:(cbn; tauto)) eq_refl
-                  p t (enc d) rtext acc n Hp Hsg Hf Hlen) as (n' & Hn' & ->).
-      match goal with |- Placeholder.us_loop _ _ _ _ ?rt (?e :: ?ac) = _ =>
-        pose proof (IH [] rt (e :: ac) n' plain_nil eq_refl Hn') as E end.
-      cbn [app] in E. rewrite E. clear E.
-      f_equal. rewrite (push_plain_fresh p rtext acc Hf). unfold res_of. cbn [exp].
-      destruct (exp d) as [l ws]. cbn [app].
-      destruct acc as [|e a]; cbn [fst snd rev app]; rewrite ?app_nil_r; [reflexivity|].
-      rewrite <- app_assoc. reflexivity.
-    + (* EQUAL *)
-      rewrite app_assoc in *.
-      rewrite (IH (p ++ t) rtext acc n ltac:(apply plain_app; auto) Hf Hlen).
-      unfold res_of. cbn [exp]. destruct (exp d) as [l ws]. rewrite <- !app_assoc.
-      destruct acc; reflexivity.
+      f_equal. rewrite (push_plain_fresh p rtext acc Hf). unfold res_of. rewrite Hexp.
+      destruct (exp d) as [l ws]. cbn [app fst snd].
+      destruct acc as [|e a]; cbn [fst snd rev app set_tail xtag xattrs xtext xkids]; rewrite ?app_nil_r; [reflexivity|].
+      rewrite <- app_assoc. reflexivity. }
+    destruct pc as [[o t]|c new old]; unfold plainseg in Hsg; cbn [piece_ok snd] in Hsg; cbn [enc_piece] in *.
+    + unfold enc_seg in *. cbn [fst snd] in *. destruct o.
+      * (* DELETE *)
+        apply (GRP DEL_O DEL_C (Placeholder.DIFF_NS_BRACED ++ Placeholder.s_delete) [] t eq_refl Hsg get_DEL_O
+                 (is_ph_const DEL_C ltac:(cbn; tauto)) eq_refl).
+        cbn [exp]. destruct (exp d); reflexivity.
+      * (* INSERT *)
+        apply (GRP INS_O INS_C (Placeholder.DIFF_NS_BRACED ++ Placeholder.s_insert) [] t eq_refl Hsg get_INS_O
+                 (is_ph_const INS_C ltac:(cbn; tauto)) eq_refl).
+        cbn [exp]. destruct (exp d); reflexivity.
+      * (* EQUAL *)
+        rewrite app_assoc in *.
+        rewrite (IH (p ++ t) rtext acc n ltac:(apply plain_app; auto) Hf Hlen).
+        unfold res_of. cbn [exp]. destruct (exp d) as [l ws]. rewrite <- !app_assoc.
+        destruct acc; reflexivity.
+    + (* REPLACE *)
+      destruct Hsg as (Hn & Ho & He & Hc).
+      apply (GRP c REP_C (Placeholder.DIFF_NS_BRACED ++ Placeholder.s_replace) [(s_old_text, old)] new eq_refl Hn He
+               (is_ph_const REP_C ltac:(cbn; tauto)) eq_refl).
+      cbn [exp]. destruct (exp d); reflexivity.
 Qed.
 End Run.
 
 (* undo_string on a run, with the fuel undo_element hands down *)
 Theorem ustr_run f d : Forall plainseg d -> (2 <= f)%nat ->
-  Placeholder.undo_string f F0 (enc d) = Placeholder.Ok (exp d).
+  Placeholder.undo_string f F0 (encp d) = Placeholder.Ok (exp d).
 Proof.
   intros Hd Hf. unfold Placeholder.undo_string.
   pose proof (us_run (fun el => Placeholder.bind (Placeholder.undo_element f F0 false el)
                                                  (fun r => Placeholder.Ok (fst r)))) as R.
   specialize (R ltac:(
-    intros name t Ht; destruct f as [|f1]; [lia|];
+    intros tag attrs t Ht; destruct f as [|f1]; [lia|];
     rewrite (PlaceholderUndo.undo_id F0 INV0 ROOM0 NEMP0); [reflexivity| |cbn; lia];
     cbn [PlaceholderUndo.npua forallb]; rewrite !andb_true_r;
     destruct t; [reflexivity|exact Ht])).
-  specialize (R d Hd [] [] [] (S (length (Placeholder.split_string F0 (enc d)))) plain_nil eq_refl).
+  specialize (R d Hd [] [] [] (S (length (Placeholder.split_string F0 (encp d)))) plain_nil eq_refl).
   cbn [app] in R. rewrite R by lia. unfold res_of. cbn [app]. destruct (exp d). reflexivity.
 Qed.
 
@@ -200,50 +216,55 @@ Qed.
 Lemma exp_plain_parts d : Forall plainseg d ->
   plain (fst (exp d)) /\ Forall (fun w => PlaceholderUndo.npua w = true) (snd (exp d)).
 Proof.
-  induction 1 as [|[o t] d Hsg _ [IH1 IH2]]; cbn [exp]; [split; [reflexivity|constructor]|].
-  destruct (exp d) as [l ws]. cbn [fst snd] in *. unfold plainseg in Hsg. cbn [snd] in Hsg.
-  assert (Hw : forall name, PlaceholderUndo.npua (welem name t l) = true).
-  { intros name. unfold welem. cbn [PlaceholderUndo.npua forallb]. rewrite andb_true_r.
-    apply andb_true_iff. split; [|exact IH1]. destruct t; [reflexivity|exact Hsg]. }
-  destruct o; cbn [fst snd]; (split; [try reflexivity|try (constructor; [apply Hw|exact IH2])]).
-  - apply plain_app; auto.
-  - exact IH2.
+  induction 1 as [|pc d Hsg _ [IH1 IH2]]; cbn [exp]; [split; [reflexivity|constructor]|].
+  destruct (exp d) as [l ws]. cbn [fst snd] in *. unfold plainseg in Hsg.
+  assert (Hw : forall tag attrs t, plain t -> PlaceholderUndo.npua (XNode tag attrs (ornone t) l []) = true).
+  { intros tag attrs t Ht. cbn [PlaceholderUndo.npua forallb]. rewrite andb_true_r.
+    apply andb_true_iff. split; [|exact IH1]. destruct t; [reflexivity|exact Ht]. }
+  destruct pc as [[o t]|c new old]; cbn [piece_ok snd] in Hsg.
+  - destruct o; cbn [fst snd]; (split; [try reflexivity|try (constructor; [apply Hw, Hsg|exact IH2])]).
+    + apply plain_app; auto.
+    + exact IH2.
+  - cbn [fst snd]. split; [reflexivity|]. constructor; [apply Hw, Hsg|exact IH2].
 Qed.
 
-Lemma enc_len_ge d : (length (fst (exp d)) + 2 * length (snd (exp d)) <= length (enc d))%nat.
+Lemma enc_len_ge d : (length (fst (exp d)) + 2 * length (snd (exp d)) <= length (encp d))%nat.
 Proof.
-  induction d as [|[o t] d IH]; [cbn; lia|].
-  change (enc ((o, t) :: d)) with (enc_seg (o, t) ++ enc d). rewrite app_length.
+  induction d as [|pc d IH]; [cbn; lia|].
+  change (encp (pc :: d)) with (enc_piece pc ++ encp d). rewrite app_length.
   cbn [exp]. destruct (exp d) as [l ws]. cbn [fst snd] in *.
-  destruct o; unfold enc_seg; cbn [fst snd length]; rewrite ?app_length; cbn [length]; lia.
+  destruct pc as [[o t]|c new old]; [destruct o|]; unfold enc_piece, enc_seg; cbn [fst snd length]; rewrite ?app_length; cbn [length]; lia.
 Qed.
 
-Lemma exp_lead_eq d : enc d = fst (exp d) -> snd (exp d) = [].
+Lemma exp_lead_eq d : encp d = fst (exp d) -> snd (exp d) = [].
 Proof.
   intros H. pose proof (enc_len_ge d) as L. rewrite H in L.
   destruct (snd (exp d)); [reflexivity|cbn [length] in L; lia].
 Qed.
 
-Lemma exp_enc_nil d : enc d = [] -> exp d = ([], []).
+Lemma exp_enc_nil d : encp d = [] -> exp d = ([], []).
 Proof.
   intros H. pose proof (enc_len_ge d) as L. rewrite H in L. cbn [length] in L.
   destruct (exp d) as [l ws]. cbn [fst snd] in L. destruct l; [|cbn in L; lia]. destruct ws; [reflexivity|cbn in L; lia].
 Qed.
 
-Lemma exp_plain d : Forall plainseg d -> plain (enc d) -> exp d = (enc d, []).
+Lemma exp_plain d : Forall plainseg d -> plain (encp d) -> exp d = (encp d, []).
 Proof.
-  induction 1 as [|[o t] d Hsg _ IH]; intros Hp; [reflexivity|].
-  change (enc ((o, t) :: d)) with (enc_seg (o, t) ++ enc d) in *. apply plain_app in Hp as [H1 H2].
-  cbn [exp]. rewrite (IH H2). destruct o; unfold enc_seg in *; cbn [fst snd] in *.
+  induction 1 as [|pc d Hsg _ IH]; intros Hp; [reflexivity|].
+  change (encp (pc :: d)) with (enc_piece pc ++ encp d) in *. apply plain_app in Hp as [H1 H2].
+  cbn [exp]. rewrite (IH H2). unfold plainseg in Hsg.
+  destruct pc as [[o t]|c new old]; [destruct o|]; unfold enc_piece, enc_seg in *; cbn [fst snd piece_ok] in *.
   - apply plain_cons in H1 as [H1 _]. discriminate.
   - apply plain_cons in H1 as [H1 _]. discriminate.
   - reflexivity.
+  - destruct Hsg as (_ & _ & He & _). apply plain_cons in H1 as [H1 _].
+    rewrite (tinv_plain_none F0 c HS H1) in He. discriminate.
 Qed.
 
 (* ------------------------------------------------------------------ *)
 (** * Run trees and their expansion *)
 
-Definition is_run (x : str) : Prop := exists d, Forall plainseg d /\ x = enc d.
+Definition is_run (x : str) : Prop := exists d, Forall plainseg d /\ x = encp d.
 
 Inductive run_tree : xtree -> Prop :=
 | RT tag attrs text tail kids :
@@ -252,7 +273,7 @@ Inductive run_tree : xtree -> Prop :=
 
 Inductive Exp : xtree -> xtree -> list xtree -> Prop :=
 | Exp_node tag attrs text tail kids dt dl text1 kids' :
-    Forall plainseg dt -> otxt text = enc dt -> Forall plainseg dl -> tail = enc dl ->
+    Forall plainseg dt -> otxt text = encp dt -> Forall plainseg dl -> tail = encp dl ->
     otxt text1 = fst (exp dt) ->
     Forall2 (fun k r => Exp k (fst r) (snd r)) kids kids' ->
     Exp (XNode tag attrs text tail kids)
@@ -262,8 +283,8 @@ Inductive Exp : xtree -> xtree -> list xtree -> Prop :=
 
 Lemma exp_heights d : Forall (fun w => Placeholder.xheight w = 1%nat) (snd (exp d)).
 Proof.
-  induction d as [|[o t] d IH]; [constructor|]. cbn [exp]. destruct (exp d) as [l ws].
-  cbn [snd] in *. destruct o; try (constructor; [reflexivity|]); exact IH.
+  induction d as [|pc d IH]; [constructor|]. cbn [exp]. destruct (exp d) as [l ws].
+  cbn [snd] in *. destruct pc as [[o t]|c new old]; [destruct o|]; try (constructor; [reflexivity|]); exact IH.
 Qed.
 
 Lemma wrappers_fixed f d : Forall plainseg d -> (2 <= f)%nat ->
@@ -285,14 +306,14 @@ Proof.
     inversion H1; subst. rewrite (IH r eq_refl H2). reflexivity.
 Qed.
 
-Lemma u_text_run f text kids dt : Forall plainseg dt -> otxt text = enc dt -> (2 <= f)%nat ->
+Lemma u_text_run f text kids dt : Forall plainseg dt -> otxt text = encp dt -> (2 <= f)%nat ->
   exists text1, PlaceholderUndo.u_text F0 f text kids = Placeholder.Ok (text1, snd (exp dt) ++ kids)
                 /\ otxt text1 = fst (exp dt).
 Proof.
   intros Hd He Hf. unfold PlaceholderUndo.u_text. destruct (otxt text) as [|c r] eqn:Et.
   - symmetry in He. rewrite (exp_enc_nil dt He). exists text. cbn [fst snd app]. auto.
   - rewrite He, (ustr_run f dt Hd Hf). cbn [Placeholder.bind]. destruct (exp dt) as [l ws] eqn:Ee.
-    destruct (Placeholder.str_eqb (enc dt) l) eqn:Es.
+    destruct (Placeholder.str_eqb (encp dt) l) eqn:Es.
     + apply PlaceholderProofs.str_eqb_eq in Es. pose proof (exp_lead_eq dt) as Hn. rewrite Ee in Hn.
       cbn [fst snd] in Hn. rewrite (Hn Es). exists text. cbn [fst snd app]. rewrite Et, He. auto.
     + pose proof (wrappers_fixed f dt Hd Hf) as Hw. rewrite Ee in Hw. cbn [snd] in Hw.
@@ -300,7 +321,7 @@ Proof.
       exists (ornone l). cbn [fst snd]. split; [reflexivity|]. destruct l; reflexivity.
 Qed.
 
-Lemma u_tail_run f hp tag attrs text1 tail kids2 dl : Forall plainseg dl -> tail = enc dl -> (2 <= f)%nat ->
+Lemma u_tail_run f hp tag attrs text1 tail kids2 dl : Forall plainseg dl -> tail = encp dl -> (2 <= f)%nat ->
   (hp = true \/ plain tail) ->
   PlaceholderUndo.u_tail F0 f hp tag attrs text1 tail kids2
   = Placeholder.Ok (XNode tag attrs text1 (fst (exp dl)) kids2, snd (exp dl)).
@@ -351,7 +372,7 @@ Proof.
     rewrite E. cbn [Placeholder.bind fst snd]. rewrite IHf. reflexivity. }
   rewrite (mapM_app _ _ _ _ _ M1 M2). cbn [Placeholder.bind].
   rewrite concat_app, PlaceholderUndo.concat_singletons.
-  rewrite (u_tail_run f1 hp tag attrs text1 (enc dl) _ dl Hdl eq_refl ltac:(lia) Hhp).
+  rewrite (u_tail_run f1 hp tag attrs text1 (encp dl) _ dl Hdl eq_refl ltac:(lia) Hhp).
   eexists _, _. split; [reflexivity|].
   rewrite <- flat_map_concat_map. eapply Exp_node; eauto.
   clear - F2. induction F2 as [|k r kids kids' [_ X] _ IHf]; constructor; auto.
@@ -395,8 +416,8 @@ Lemma proj_unfold acc tag attrs text tail kids :
           (Some txt) tail (rev ks).
 Proof. reflexivity. Qed.
 
-Definition vw (acc : bool) (W : xtree) : xtree := if acc then aw W else rw W.
-Definition vs (acc : bool) (x : str) : str := if acc then astr x else rstr x.
+Definition vw (acc : bool) (W : xtree) : xtree := if acc then aw W else rw F0 W.
+Definition vs (acc : bool) (x : str) : str := if acc then astr x else rstr F0 x.
 Definition live (acc : bool) (k : xtree) : bool := if acc then alive_w k else alive_r k.
 
 Lemma goes_live acc k : goes acc k = negb (live acc k).
@@ -414,28 +435,32 @@ Definition wsum (acc : bool) (ws : list xtree) : str :=
 Lemma otxt_ornone t : otxt (ornone t) = t.
 Proof. destruct t; reflexivity. Qed.
 
-Lemma exp_sum acc d : fst (exp d) ++ wsum acc (snd (exp d)) = if acc then DMP.t2 d else DMP.t1 d.
+Lemma exp_sum acc d : fst (exp d) ++ wsum acc (snd (exp d)) = if acc then pt2 d else pt1 d.
 Proof.
-  induction d as [|[o t] d IH]; [destruct acc; reflexivity|].
+  induction d as [|pc d IH]; [destruct acc; reflexivity|].
   cbn [exp]. destruct (exp d) as [l ws]. cbn [fst snd] in IH.
-  rewrite DMPBase.t1_proj, DMPBase.t2_proj, !DMPBase.proj_cons, <- DMPBase.t1_proj, <- DMPBase.t2_proj.
-  destruct o; cbn [fst snd]; unfold wsum; cbn [map concat]; fold (wsum acc ws).
+  rewrite pt1_cons, pt2_cons.
+  destruct pc as [[o t]|c new old]; [destruct o|]; cbn [fst snd]; unfold wsum; cbn [map concat]; fold (wsum acc ws).
   - (* DELETE *) change (wrapper_kind (welem Placeholder.s_delete t l)) with (Some WDel).
     unfold wrapper_text. cbn [xtext xtail welem]. rewrite otxt_ornone.
-    destruct acc; cbn [DMPBase.keep1 DMPBase.keep2 DMP.is_insert DMP.is_delete negb app]; rewrite <- IH; rewrite ?app_assoc; reflexivity.
+    destruct acc; cbn [DMP.is_insert DMP.is_delete app]; rewrite <- IH; rewrite ?app_nil_r, ?app_assoc; reflexivity.
   - (* INSERT *) change (wrapper_kind (welem Placeholder.s_insert t l)) with (Some WIns).
     unfold wrapper_text. cbn [xtext xtail welem]. rewrite otxt_ornone.
-    destruct acc; cbn [DMPBase.keep1 DMPBase.keep2 DMP.is_insert DMP.is_delete negb app]; rewrite <- IH; rewrite ?app_assoc; reflexivity.
-  - (* EQUAL *) destruct acc; cbn [DMPBase.keep1 DMPBase.keep2 DMP.is_insert DMP.is_delete negb]; rewrite <- IH, <- app_assoc; reflexivity.
+    destruct acc; cbn [DMP.is_insert DMP.is_delete app]; rewrite <- IH; rewrite ?app_nil_r, ?app_assoc; reflexivity.
+  - (* EQUAL *) destruct acc; cbn [DMP.is_insert DMP.is_delete app]; rewrite <- IH, <- app_assoc; reflexivity.
+  - (* REPLACE *) change (wrapper_kind (relw new old l)) with (Some WRep).
+    unfold wrapper_text. cbn [xtext xtail xattrs relw]. rewrite otxt_ornone.
+    change (aget [(s_old_text, old)] l_old_text) with (Some old). cbv iota.
+    destruct acc; cbn [app]; rewrite <- IH; rewrite ?app_nil_r, ?app_assoc; reflexivity.
 Qed.
 
-Lemma exp_sum_vs acc d : Forall plainseg d -> fst (exp d) ++ wsum acc (snd (exp d)) = vs acc (enc d).
-Proof. intros H. rewrite exp_sum. destruct acc; cbn [vs]; [now rewrite astr_enc|now rewrite rstr_enc]. Qed.
+Lemma exp_sum_vs acc d : Forall plainseg d -> fst (exp d) ++ wsum acc (snd (exp d)) = vs acc (encp d).
+Proof. intros H. rewrite exp_sum. destruct acc; cbn [vs]; [now rewrite (astr_encp F0 d HS H)|now rewrite (rstr_encp F0 d HS H)]. Qed.
 
 Lemma exp_wrappers d : Forall (fun w => wrapper_kind w <> None) (snd (exp d)).
 Proof.
-  induction d as [|[o t] d IH]; [constructor|]. cbn [exp]. destruct (exp d) as [l ws]. cbn [snd] in *.
-  destruct o; try (constructor; [discriminate|]); exact IH.
+  induction d as [|pc d IH]; [constructor|]. cbn [exp]. destruct (exp d) as [l ws]. cbn [snd] in *.
+  destruct pc as [[o t]|c new old]; [destruct o|]; try (constructor; [discriminate|]); exact IH.
 Qed.
 
 Lemma push_app a b st : push (a ++ b) st = push b (push a st).
@@ -486,12 +511,12 @@ Proof.
     pose proof (IHk HCk0 k' sib X) as Pk.
     inversion X as [ktag kattrs ktext ktail kkids kdt kdl ktext1 kkids' Hkdt KEt Hkdl KEl KHt1 KF2]; subst.
     inversion HCk0 as [? ? ? ? ? Hkk _]; subst.
-    match goal with |- context [wrapper_kind ?K] => change (wrapper_kind K) with (wrapper_kind (XNode ktag kattrs ktext (enc kdl) kkids)) end.
+    match goal with |- context [wrapper_kind ?K] => change (wrapper_kind K) with (wrapper_kind (XNode ktag kattrs ktext (encp kdl) kkids)) end.
     rewrite Hkk. rewrite goes_live.
     match goal with |- context [live acc ?K] =>
-      change (live acc K) with (live acc (XNode ktag kattrs ktext (enc kdl) kkids)) end.
+      change (live acc K) with (live acc (XNode ktag kattrs ktext (encp kdl) kkids)) end.
     cbn [filter].
-    destruct (live acc (XNode ktag kattrs ktext (enc kdl) kkids)) eqn:El; cbn [negb].
+    destruct (live acc (XNode ktag kattrs ktext (encp kdl) kkids)) eqn:El; cbn [negb].
     - cbv zeta. rewrite Pk. cbn [set_tail xtail xtag xattrs xtext xkids].
       match goal with |- context [scan acc (snd (exp kdl) ++ ?rest) (?t, ?e :: ?aa, false)] =>
         destruct (scan_wrappers acc (snd (exp kdl)) (exp_wrappers kdl) rest t (e :: aa)) as [_ S2] end.
@@ -527,7 +552,7 @@ Qed.
    two views of the working tree (up to the tail of the root, which is outside the document) *)
 Theorem finalize_run W : run_tree W -> clean_tags W -> plain (xtail W) ->
   exists T, finalize F0 W = FOk T /\
-            accept T = set_tail (aw W) (xtail T) /\ reject T = set_tail (rw W) (xtail T).
+            accept T = set_tail (aw W) (xtail T) /\ reject T = set_tail (rw F0 W) (xtail T).
 Proof.
   intros HR HC HT.
   destruct (undo_exp W HR (Placeholder.default_fuel F0 W) false) as (W' & sibs & E & X).
@@ -536,3 +561,4 @@ Proof.
   - exists W'. unfold finalize, Placeholder.undo_tree, Placeholder.undo_tree_fuel. rewrite E. cbn [Placeholder.bind fst of_ph].
     split; [reflexivity|]. split; [apply (proj_exp true W HC W' sibs X)|apply (proj_exp false W HC W' sibs X)].
 Qed.
+End WithS.
